@@ -49,6 +49,8 @@ TOPOLOGIES = [
     ('chain hinge - slide - hinge', [dict(parent=-1, joints=H), dict(parent=0, joints=S), dict(parent=1, joints=H)]),
     ('free root with hinge and slide children', [dict(parent=-1, joints=F), dict(parent=0, joints=H), dict(parent=0, joints=S)]),
     ('forest: slide root, hinge root with slide child', [dict(parent=-1, joints=S), dict(parent=-1, joints=H), dict(parent=1, joints=S)]),
+    # the deepest tree of the quantifier: the mass matrix couples the last link with every ancestor up to the root
+    ('serial chain of six links (hinge / slide alternating)', [dict(parent=i - 1, joints=(H if i % 2 == 0 else S)) for i in range(6)]),
 ]
 STACKS = [
     ('forest listing a world-attached sprung tree BEFORE a free-floating one', [dict(parent=-1, joints=H), dict(parent=0, joints=S),
